@@ -91,6 +91,9 @@ def gen_desc(seed, nsched):
                 base["rule"].setdefault(r[0], {}).update(o)
     srng = substream(seed, "schedule")
     schedules = [{"perm_seed": None, "disable": [], "enable": [], "phase": {}, "passes": [{"all": True, "skip": []}, {"all": True, "skip": []}], "report": True}]
+    # the phase-gated check twice on the same objects (what apply_rules does around a fix), with the
+    # printed report: stop phase, rule count and violations must repeat
+    schedules.append({"perm_seed": None, "disable": [], "enable": [], "phase": {}, "passes": [{"all": False, "skip": []}, {"all": False, "skip": []}], "report": True})
     for k in range(nsched):
         schedules.append(gen_pruned(srng, runner.RULES) if k % 3 == 2 else gen_schedule(srng, runner.RULES))
     return {
@@ -209,6 +212,10 @@ def evaluate(desc, R):
                         }
                     )
             # the identical pass again must give the identical report
+            if pi > 0 and desc["schedules"][si]["passes"][pi] == desc["schedules"][si]["passes"][pi - 1]:
+                q = s["passes"][pi - 1]
+                if not q["err"] and (q["ran"] != ran or (q.get("report") is not None and q.get("report") != p.get("report"))):
+                    V.append({"class": "repeat-mismatch", "target": None, "observed": {"reader": None, "writers": None, "schedule": si, "pass": pi, "what": "rules analysed" if q["ran"] != ran else "printed report", "ran_n": [len(q["ran"]), len(ran)]}})
             if pi > 0 and s["passes"][pi - 1].get("ran") == ran and s.get("passes") and desc["schedules"][si]["passes"][pi] == desc["schedules"][si]["passes"][pi - 1]:
                 if s["passes"][pi - 1]["V"] != p["V"]:
                     diff = sorted(k for k in set(p["V"]) | set(s["passes"][pi - 1]["V"]) if p["V"].get(k) != s["passes"][pi - 1]["V"].get(k))
@@ -561,8 +568,8 @@ def run_job(job, env):
     if st.get("followup_schedules"):
         out.stat("writer_followup_schedules", st["followup_schedules"])
     if job["i"] < 1:
-        s1 = d["schedules"][1] if len(d["schedules"]) > 1 else {}
-        out.sample({"file": d["meta"], "schedule_example": {"perm_seed": s1.get("perm_seed"), "disable_n": len(s1.get("disable", [])), "enable_n": len(s1.get("enable", [])), "phase": s1.get("phase"), "passes": s1.get("passes")}, "analysis_order_head": (R["schedules"][1]["passes"][0]["ran"][:12] if len(R["schedules"]) > 1 and "passes" in R["schedules"][1] else None), "stats": st})
+        s1 = d["schedules"][-1] if len(d["schedules"]) > 1 else {}
+        out.sample({"file": d["meta"], "schedule_example": {"perm_seed": s1.get("perm_seed"), "disable_n": len(s1.get("disable", [])), "enable_n": len(s1.get("enable", [])), "phase": s1.get("phase"), "passes": s1.get("passes")}, "analysis_order_head": (R["schedules"][-1]["passes"][0]["ran"][:12] if len(R["schedules"]) > 1 and "passes" in R["schedules"][-1] else None), "stats": st})
     return out.done()
 
 
